@@ -275,6 +275,140 @@ func specMBR(d *pmtDescriptor) uint64 {
 //@     invariant forall j in 0..rangeindex+1 :: !(descOf(es.descriptors[j]).tag == 127 && len(descOf(es.descriptors[j]).data) >= 1 && descOf(es.descriptors[j]).data[0] == 32)
 //@     decreases len(es.descriptors) - rangeindex
 
+
+// ---------------------------------------------------------------- C05/C06: PMT section walk (safety and termination)
+
+//@ func NewPmtElementaryStream(streamType uint8, elementaryPid int, descriptors []PmtDescriptor) PmtElementaryStream
+//@   props C05 C06
+//@   ensures result != nil
+//@   modifies nothing
+
+//@ func PmtAccumulatorDoneFunc(b []byte) (done bool, err error)
+//@   props C05 C06
+//@   ensures err == nil
+//@   ensures len(b) < 1 ==> !done
+//@   modifies nothing
+//@   loop 1 (sectionBytes []byte)
+//@     invariant len(sectionBytes) >= 0
+//@     decreases len(sectionBytes)
+
+//@ func (p *pmt) parseTables(pmtBytes []byte) error
+//@   props C05 C06
+//@   requires p != nil
+//@   ensures len(pmtBytes) == 0 ==> result != nil
+//@   modifies *p
+//@   loop 1 (sectionBytes []byte)
+//@     invariant len(sectionBytes) >= 0
+//@     decreases len(sectionBytes)
+
+//@ func (p *pmt) parsePMTSection(pmtBytes []byte) error
+//@   props C05 C06
+//@   requires p != nil && len(pmtBytes) >= 3 && len(pmtBytes) == 3+int(pmtBytes[1]%4)*256+int(pmtBytes[2])
+//@   ensures len(pmtBytes) <= 11 ==> result == gots.ErrPMTParse
+//@   modifies *p
+//@   loop 1 (offset uint16, pids []int, elementaryStreams []PmtElementaryStream)
+//@     invariant offset >= 12
+//@     invariant (cap(pids) == 0 || fresh(pids)) && (cap(elementaryStreams) == 0 || fresh(elementaryStreams))
+//@     decreases 70000 - int(offset)
+//@   loop 2 (descriptorOffset uint16, offset uint16, infoLength uint16, descriptors []PmtDescriptor)
+//@     invariant int(infoLength)+int(offset) < len(pmtBytes) && infoLength < 4096 && offset >= 12
+//@     invariant cap(descriptors) == 0 || fresh(descriptors)
+//@     decreases 70000 - int(descriptorOffset)
+
+//@ func NewPMT(pmtBytes []byte) (x PMT, err error)
+//@   props C05 C06
+//@   ensures len(pmtBytes) == 0 ==> err != nil
+//@   ensures err == nil ==> x != nil
+//@   modifies nothing
+
+
+func pmtOf(x PMT) *pmt {
+	p, _ := x.(*pmt)
+	return p
+}
+
+//@ func (p *pmt) Pids() []int
+//@   props C05 C06 C14
+//@   requires p != nil
+//@   ensures len(result) == len(p.pids) && (len(result) > 0 ==> &result[0] == &p.pids[0])
+//@   modifies nothing
+
+//@ func (p *pmt) VersionNumber() uint8
+//@   props C05 C06
+//@   requires p != nil
+//@   ensures result == p.versionNumber
+//@   modifies nothing
+
+//@ func (p *pmt) CurrentNextIndicator() bool
+//@   props C05 C06
+//@   requires p != nil
+//@   ensures result == p.currentNextIndicator
+//@   modifies nothing
+
+//@ func (p *pmt) ElementaryStreams() []PmtElementaryStream
+//@   props C05 C06 C14
+//@   requires p != nil
+//@   ensures len(result) == len(p.elementaryStreams) && (len(result) > 0 ==> &result[0] == &p.elementaryStreams[0])
+//@   modifies nothing
+
+//@ func pidIn(pids []int, target int) bool
+//@   props C05 C14
+//@   ensures result == exists k in 0..len(pids) :: pids[k] == target
+//@   modifies nothing
+//@   loop 1 (rangeindex int)
+//@     invariant -1 <= rangeindex && rangeindex < len(pids)
+//@     invariant forall j in 0..rangeindex+1 :: pids[j] != target
+//@     decreases len(pids) - rangeindex
+
+//@ func (p *pmt) PIDExists(pid int) bool
+//@   props C05 C14
+//@   requires p != nil
+//@   ensures result == exists k in 0..len(p.pids) :: p.pids[k] == pid
+//@   modifies nothing
+//@   loop 1 (rangeindex int)
+//@     invariant -1 <= rangeindex && rangeindex < len(p.pids)
+//@     invariant forall j in 0..rangeindex+1 :: p.pids[j] != pid
+//@     decreases len(p.pids) - rangeindex
+
+//@ func CanBuildPMT(payload []byte, sectionLength uint16) bool
+//@   props C05 C06
+//@   ensures result == (len(payload) >= int(sectionLength))
+//@   modifies nothing
+
+//@ func ExtractCRC(payload []byte) (crc uint32, err error)
+//@   props C05 C06
+//@   ensures len(payload) < 4 ==> err == gots.ErrShortPayload
+//@   ensures len(payload) >= 4 && payload[0] == 0 && len(payload) >= 4+int(payload[2]%4)*256+int(payload[3]) && int(payload[2]%4)*256+int(payload[3]) >= 4 ==> err == nil && crc == uint32(payload[int(payload[2]%4)*256+int(payload[3])])<<24|uint32(payload[1+int(payload[2]%4)*256+int(payload[3])])<<16|uint32(payload[2+int(payload[2]%4)*256+int(payload[3])])<<8|uint32(payload[3+int(payload[2]%4)*256+int(payload[3])])
+//@   modifies nothing
+
+//@ func safeSlice(byteArray []byte, start int, end int) []byte
+//@   props C05 C14
+//@   requires 0 <= start && start <= end && start <= len(byteArray)
+//@   ensures end < len(byteArray) ==> len(result) == end-start
+//@   ensures end >= len(byteArray) ==> len(result) == len(byteArray)-start
+//@   modifies nothing
+
+
+// specStreamsOK: every stream of the list is one of the library's, with a stream type from the table.
+func specStreamsOK(es []PmtElementaryStream) bool {
+	return verifForall(0, len(es), func(k int) bool {
+		return esOf(es[k]) != nil && isST(esOf(es[k]).PmtStreamType)
+	})
+}
+
+//@ transparent pmtElementaryStream.IsStreamWherePresentationLagsEbp
+
+//@ func (p *pmt) IsPidForStreamWherePresentationLagsEbp(pid int) bool
+//@   props C20 C05
+//@   requires p != nil && specStreamsOK(p.elementaryStreams)
+//@   ensures (forall k in 0..len(p.elementaryStreams) :: esOf(p.elementaryStreams[k]).elementaryPid != pid) ==> !result
+//@   ensures len(p.elementaryStreams) >= 1 && esOf(p.elementaryStreams[0]).elementaryPid == pid ==> result == stOf(esOf(p.elementaryStreams[0]).PmtStreamType).presentationLagsEbp
+//@   modifies nothing
+//@   loop 1 (rangeindex int)
+//@     invariant -1 <= rangeindex && rangeindex < len(p.elementaryStreams)
+//@     invariant forall j in 0..rangeindex+1 :: esOf(p.elementaryStreams[j]).elementaryPid != pid
+//@     decreases len(p.elementaryStreams) - rangeindex
+
 // ---------------------------------------------------------------- C07: PAT
 
 // A program association section carried with pointer_field 0: table header at 1..3, program
